@@ -33,7 +33,7 @@ def comment : Str → Option (Str × Nat)
   | _ => none
 -- NB Python: `if eat('*'): if eat('/'): return True; continue` — a `*` not followed by `/` is consumed alone: same as above.
 
-/-- `literal(scanner)`: quoted string, may step past the end after a backslash (`over` = 1) -/
+/-- `literal(scanner)`: quoted string, never steps past the end (`over` is always 0 since the repair of the trailing-backslash overrun) -/
 def literalLoop (q : Ch) : Str → Nat → Str × Nat × Nat          -- rest, consumed, overrun
   | [], n => ([], n, 0)
   | x :: xs, n =>
@@ -41,7 +41,7 @@ def literalLoop (q : Ch) : Str → Nat → Str × Nat × Nat          -- rest, c
     else if x == 92 then
       match xs with
       | _ :: ys => literalLoop q ys (n + 2)
-      | [] => ([], n + 1, 1)                                   -- eat('\\'); pos += 1 → past the end
+      | [] => ([], n + 1, 0)                                   -- eat('\\'); at EOF: no further step
     else literalLoop q xs (n + 1)
 def literal : Str → Option (Str × Nat × Nat)
   | q :: xs => if isQuote q then some (literalLoop q xs 1) else none
@@ -65,7 +65,7 @@ def scanLoop : Nat → Str → Int → ScanState → List Ev → List Ev × Scan
     if isSpace x then let (r, n) := spanSpace xs 1; scanLoop fuel r (pos + n) st acc
     else
     let sstart := pos                                        -- scanner.start = scanner.pos
-    if x == 125 || x == 59 then
+    if x == 125 || (x == 59 && st.expression ≤ 0) then      -- a `;` inside parentheses is not a delimiter
       let blockEnd := x == 125
       let p1 := pos + 1
       -- pending property / token flush
@@ -82,7 +82,8 @@ def scanLoop : Nat → Str → Int → ScanState → List Ev → List Ev × Scan
     else if x == 123 then
       let p1 := pos + 1
       let st1 := if st.start == -1 && st.propertyStart == -1 then { st with start := p1, stop := p1 } else st
-      let st2 := if st1.propertyStart != -1 then { st1 with start := st1.propertyStart } else st1
+      let st2 := if st1.propertyStart != -1 then
+          { st1 with start := st1.propertyStart, stop := if st1.stop == -1 then st1.propertyDelimiter + 1 else st1.stop } else st1
       scanLoop fuel xs p1 st2.reset (⟨.selector, st2.start, st2.stop, sstart⟩ :: acc)
     else if x == 58 then
       -- `eat(':') and not is_known_selector_colon`: state.expression or eat_while(':')
@@ -99,7 +100,7 @@ def scanLoop : Nat → Str → Int → ScanState → List Ev → List Ev × Scan
           match literal (y :: r) with
           | some (r', n, over) => scanLoop fuel r' (p1 + n + over) { st1 with stop := p1 + n + over } acc
           | none => scanLoop fuel r (p1 + 1) { st1 with stop := p1 + 1 } acc
-        | [] => scanLoop fuel [] (p1 + 1) { st1 with stop := p1 + 1 } acc        -- pos += 1 past the end
+        | [] => scanLoop fuel [] p1 { st1 with stop := p1 } acc                  -- at EOF: nothing more to consume
       else
         let (r, n) := spanColon xs 0
         if n > 0 then
@@ -113,10 +114,11 @@ def scanLoop : Nat → Str → Int → ScanState → List Ev → List Ev × Scan
             match literal (y :: r') with
             | some (r'', m, over) => scanLoop fuel r'' (p2 + m + over) { st1 with stop := p2 + m + over } acc
             | none => scanLoop fuel r' (p2 + 1) { st1 with stop := p2 + 1 } acc
-          | [] => scanLoop fuel [] (p2 + 1) { st1 with stop := p2 + 1 } acc
+          | [] => scanLoop fuel [] p2 { st1 with stop := p2 } acc
         else
           let st1 := if st.propertyStart == -1 then { st with propertyStart := st.start } else st
-          scanLoop fuel xs p1 { st1 with propertyEnd := st1.stop, propertyDelimiter := p1 - 1, start := -1, stop := -1 } acc
+          let pe := if st1.stop != -1 then st1.stop else if st1.propertyStart != -1 then st1.propertyDelimiter + 1 else st1.propertyEnd
+          scanLoop fuel xs p1 { st1 with propertyEnd := pe, propertyDelimiter := p1 - 1, start := -1, stop := -1 } acc
     else
       let st1 := if st.start == -1 then { st with start := pos } else st
       if x == 40 then scanLoop fuel xs (pos + 1) { st1 with expression := st1.expression + 1, stop := pos + 1 } acc
